@@ -134,16 +134,31 @@ def same_outcome(impl, model, scale=0.0):
 
 # ------------------------------------------------------------------------------ the SI reference (from the driver)
 class SI:
+    """the hand-written reference (PGA/Spec/SI.lean), extended by the units of the working tree the reference does not know
+    and that are consistent with their definitions (PGA/Spec/SIExt.lean): `units` = both, `ref_units` = the reference alone,
+    `verdicts` = the driver's verdict on every new unit (registration order), `new` = the accepted ones"""
+
     def __init__(self, ctx):
-        rep = ctx.model([{'op': 'c10.si_table'}])
+        rep = ctx.model([{'op': 'c10.si_table'}, {'op': 'c10.ext_table'}])
         if rep is None:
             raise common.MachineryError('the model driver is not available: no SI reference table')
         t = rep[0]
         self.units = {}
         for u in t['units']:
             self.units[u['name']] = (common.unjrat(u['value']), [common.unjrat(x) for x in u['dim']], float(common.unjrat(u['tol'])))
+        self.ref_units = dict(self.units)
         self.prefixes = {p['name']: int(p['exp']) for p in t['prefixes']}
         self.R = (common.unjrat(t['R']['value']), [common.unjrat(x) for x in t['R']['dim']], float(common.unjrat(t['R']['tol'])))
+        self.verdicts = rep[1]['new']
+        self.new = {}
+        for v in self.verdicts:
+            if v['verdict'] == 'accepted':
+                self.new[v['name']] = (common.unjrat(v['value']), [common.unjrat(x) for x in v['dim']], float(common.unjrat(v['tol'])))
+        self.units.update(self.new)
+        # names the generator uses as *unknown* names: only those that have no meaning over the extended reference either
+        # (a maintainer may add `hr`, `inch`, ...: then they are units, not malformed texts)
+        reps = ctx.model([{'op': 'c10.eval_ext', 'text': t} for t in BAD_NAMES])
+        self.bad_names = [t for t, r in zip(BAD_NAMES, reps) if 'err' in r] or ['foo']
 
     def named(self, prefix, unit):
         """meaning of the name prefix+unit: the unit itself if the concatenation is a unit name"""
@@ -198,6 +213,8 @@ def _denote(si, e):
     if k == 'num':
         return num_value(e[1]), [Fraction(0)] * 7, 0.0, True
     if k == 'name':
+        if e[1] + e[2] not in si.units and (e[2] not in si.units or (e[1] and e[1] not in si.prefixes)):
+            raise Domain('unitsParse')      # (a replayed tree over a unit the table no longer has)
         v, d, tol = si.named(e[1], e[2])
         return v, list(d), tol, True
     if k == 'bad':
@@ -292,6 +309,9 @@ EXPS = ['2', '3', '-1', '-2', '1', '0', '4', '-3', '2.0', '0.5', '-0.5', '1.5', 
 EXPS_NEAR = ['1.000001', '2.00001', '-2.00001', '0.000005', '-1.000002']
 
 
+BAD_NAMES = ['foo', 'ohm', 'inch', 'hr', 'x', 'T', 'kk', 'inf', 'nan', 'Infinity', 'e', 'dal', 'mmm']
+
+
 def gen_base(rng, si, depth, names, allow_bad=False):
     r = rng.random()
     if depth > 0 and r < 0.22:
@@ -299,7 +319,7 @@ def gen_base(rng, si, depth, names, allow_bad=False):
     if r < 0.40:
         return ('num', rng.choice(NUMS))
     if allow_bad and r < 0.43:
-        return ('bad', rng.choice(['foo', 'ohm', 'inch', 'hr', 'x', 'T', 'kk', 'inf', 'nan', 'Infinity', 'e', 'dal', 'mmm']))
+        return ('bad', rng.choice(getattr(si, 'bad_names', BAD_NAMES)))
     return rng.choice(names)
 
 
@@ -331,7 +351,8 @@ def all_names(si, live_prefixes=None):
 
 def importable(ctx):
     """the package builds its unit database at import by evaluating builtin.py's definitions; if that fails, every
-    expression fails: reported as a violation with the import error as the observed outcome, not as a harness failure"""
+    expression fails: reported as a violation with the failing definition as the input (the loop variables of builtin.py at
+    the point of failure) and the import error as the observed outcome, not as a harness failure"""
     try:
         import pgradd.Units  # noqa
         import pgradd.Consts  # noqa
@@ -340,7 +361,15 @@ def importable(ctx):
         import traceback
         tb = traceback.extract_tb(e.__traceback__)
         where = ['%s:%d' % (f.filename.split('pgradd/')[-1], f.lineno) for f in tb if 'pgradd' in f.filename][-3:]
-        ctx.violation('pgradd.Units cannot be imported: a built-in unit definition does not evaluate',
-                      {'import': 'pgradd.Units'}, 'the unit database is built',
+        inp = {'import': 'pgradd.Units'}
+        t = e.__traceback__
+        while t is not None:
+            if t.tb_frame.f_code.co_filename.replace('\\', '/').endswith('pgradd/Units/builtin.py'):
+                loc = t.tb_frame.f_locals
+                if isinstance(loc.get('val'), str) and isinstance(loc.get('name'), str):
+                    inp = {'import': 'pgradd.Units', 'text': loc['val'], 'unit': loc['name']}
+            t = t.tb_next
+        ctx.violation('pgradd.Units cannot be imported: a built-in unit definition does not evaluate over the units defined before it',
+                      inp, 'the unit database is built',
                       {'err': errclass(e), 'message': str(e)[:200], 'where': where})
         return False
